@@ -505,6 +505,7 @@ typedef ATYPE aobj_t;
 static aobj_t gobj;
 struct holder { long pad; aobj_t m; };
 static aobj_t *target;
+static struct holder *hold;
 static atomic_int ready, go;
 static int phase;
 struct arg { int id; long errs; long fails; long evals; obj_t *rec; };
@@ -539,7 +540,7 @@ def stress_program(tag, storage, nt, iters, rng):
     """returns (source, [(phase name, predictor)]); predictor: ('fold', init, [(count, op, val)...]) | ('bits', value) | ('any',)"""
     _, cty, b, k, sg, cls = TY[tag]
     aty = f'_Atomic({cty})' if cls == 'ptr' else f'_Atomic {cty}'
-    obj = 'gobj' if storage == 'static' else '(*target)'
+    obj = 'gobj' if storage == 'static' else ('hold->m' if storage == 'member' else '(*target)')
     finalbits = 'bits_of(v)' if cls != 'ptr' else '(unsigned long)(v - base)'
     head = (STRESS_HEAD.replace('ATYPE', aty).replace('TYPE', cty).replace('NTHREADS', str(nt)).replace('NITERS', str(iters))
             .replace('FINALBITS', finalbits).replace('OBJ', obj))
@@ -619,7 +620,7 @@ def stress_program(tag, storage, nt, iters, rng):
     elif storage == 'heap':
         src.append('  target = malloc(sizeof(aobj_t));')
     elif storage == 'member':
-        src.append('  struct holder *h = malloc(sizeof *h); target = &h->m;')
+        src.append('  hold = malloc(sizeof *hold); target = &hold->m;')
     src.append('  for (int i = 0; i < NT; i++) args[i].rec = malloc(sizeof(obj_t) * ITERS);')
     for i, ph in enumerate(phases):
         initv = ph[1]
@@ -838,6 +839,20 @@ def corpus(ctx, corr):
         m = re.search(r'/\* expect:\n(.*?)\*/', text, re.S)
         want = [l.strip() for l in m.group(1).strip().splitlines()] if m else None
         kid = re.search(r'/\* known_id: (\S+) \*/', text)
+        diag = re.search(r'/\* expect-diagnostic: (.*?) \*/', text)
+        if diag:
+            # the witness must be rejected at compile time with a located diagnostic (file:line: ... message), exit status 1
+            path = os.path.join(ctx.scratch, 'corpus_' + fn)
+            open(path, 'w').write(text)
+            rc, o, e = sh([ctx.cc, '-I' + os.path.join(ctx.snapshot, 'include'), '-c', '-o', path + '.o', path], timeout=60)
+            corr.evaluations += 1
+            corr.count('corpus')
+            corr.nontrivial.add('corpus:' + fn)
+            if rc != 1 or diag.group(1) not in e or not re.search(re.escape(os.path.basename(path)) + r':\d+:', e):
+                corr.violations.append({'what': 'corpus witness fails: ' + fn, 'input': fn, 'expected': 'exit 1 and a located diagnostic: ' + diag.group(1),
+                                        'got': f'rc={rc} {e[-300:]}', 'program': text})
+                return
+            continue
         kind, rc, o, e = build_run(ctx, text, 'corpus_' + fn[:-2], 60)
         corr.evaluations += 1
         corr.count('corpus')
